@@ -151,6 +151,7 @@ def finish(mod, prop, tier, seed, results, inconclusive, wall):
             "unlisted_violation_events": n_unlisted_total,
             "inconclusive_reasons": inconclusive,
             "shards": len(results),
+            "emptysan_shards": sum(1 for r in results if r.get("emptysan")),
             "exhaustive": False,
         },
         "assumptions": getattr(mod, "ASSUMPTIONS", []) + [
